@@ -781,4 +781,75 @@ def mincodeSelect (a : KAlph) (compression : Nat) (p : Perm) (kmers : List Nat) 
     .ok (((zipIdx kmers).zip ord).filterMap fun ((i, q), v) =>
       if (v - p.offset) * (compression : Int) < p.range a.size then some (i, q) else none)
 
+/-! ## less-used entry points: `select(sequence, alphabet_check)`, table protocol methods, alphabet methods -/
+
+/-- the alphabet test at the head of every `select(sequence, alphabet_check=True)`. -/
+def selectGuard (a : KAlph) (qa : QAlph) (chk : Bool) : Bool := !chk || qa.extendedBy a.n
+
+/-- `MinimizerSelector(kmer_alphabet, window, permutation).select(sequence, alphabet_check)`. -/
+def minimizerSelectSeq (a : KAlph) (w : Nat) (p : Perm) (qa : QAlph) (chk : Bool) (seq : List Nat) :
+    Except Err (List (Nat × Nat)) :=
+  if w < 2 then .error .valueError
+  else if ! selectGuard a qa chk then .error .valueError
+  else match createKmers a seq with
+    | .error e => .error e
+    | .ok ks => minimizerSelect w p ks
+
+/-- `MincodeSelector(kmer_alphabet, compression, permutation).select(sequence, alphabet_check)`. -/
+def mincodeSelectSeq (a : KAlph) (c : Nat) (p : Perm) (qa : QAlph) (chk : Bool) (seq : List Nat) :
+    Except Err (List (Nat × Nat)) :=
+  if c < 1 then .error .valueError
+  else if ! selectGuard a qa chk then .error .valueError
+  else match createKmers a seq with
+    | .error e => .error e
+    | .ok ks => mincodeSelect a c p ks
+
+/-- `SyncmerSelector(...).select(sequence, alphabet_check)` resp. `CachedSyncmerSelector(...).select(...)`:
+constructor first (the cached one tabulates all k-mers), then the alphabet test, then the selection. -/
+def syncmerSelectSeq (n k s : Nat) (p : Perm) (offsets : List Int) (cached : Bool) (qa : QAlph) (chk : Bool)
+    (seq : List Nat) : Except Err (List (Nat × Nat)) :=
+  match syncSetup n k s offsets with
+  | .error e => .error e
+  | .ok _ =>
+    let ctor : Except Err Unit :=
+      if cached then (match cachedSyncmerMask n k s p offsets with | .error e => .error e | .ok _ => .ok ())
+      else .ok ()
+    match ctor with
+    | .error e => .error e
+    | .ok _ =>
+      if ! selectGuard ⟨n, k, none⟩ qa chk then .error .valueError
+      else if cached then
+        match createKmers ⟨n, k, none⟩ seq with
+        | .error e => .error e
+        | .ok ks => cachedSyncmerFromKmers n k s p offsets ks
+      else syncmerSelect n k s p offsets seq
+
+/-- `kmer in table` (`KmerTable.__contains__`; bounds-checked memoryview access). -/
+def tableHas (t : Table) (q : Nat) : Except Err Bool :=
+  if t.bucketed then .error .typeError
+  else match t.slots[q]? with
+    | none => .error .indexError
+    | some s => .ok s.isSome
+
+/-- letters of a k-mer (`decode` over a `LetterAlphabet` "ABC…"). -/
+def kmerLetters (a : KAlph) (q : Nat) : String :=
+  String.ofList ((splitCode a.n a.k q).map fun d => Char.ofNat (65 + d))
+
+/-- `str(table)` with blanks removed and lines joined by `|`. -/
+def tableStr (t : Table) : String :=
+  Proto.joinWith "|" ((getKmers t).map fun q =>
+    kmerLetters t.alph q ++ ":" ++ Proto.joinWith "," (match getItem t q with
+      | .ok ps => ps.map fun (r, p) => s!"({r},{p})"
+      | .error _ => []))
+
+/-- `KmerAlphabet.split(kmer_code)`. -/
+def splitChecked (a : KAlph) (q : Nat) : Except Err (List Nat) :=
+  if q ≥ a.size then .error .alphabetError else .ok (splitCode a.n a.k q)
+
+/-- `KmerAlphabet.encode(symbols)` on symbols given by their codes (a symbol outside the alphabet has code ≥ n). -/
+def encodeChecked (a : KAlph) (codes : List Nat) : Except Err Nat :=
+  if codes.any (· ≥ a.n) then .error .alphabetError
+  else if codes.length ≠ a.k then .error .alphabetError
+  else .ok (fuseCodes a.n codes)
+
 end BiotiteModel.C10
